@@ -271,3 +271,6 @@ also("C13", "Also: parse_from_str and parse_and_remainder of each type resolve t
 also("C16", "Also: parse_offset / parse_rule_time / parse_rule_time_extended weigh the scanned (hour, minute, second) with 3600 / 60 / 1 in that order.")
 also("C18", "Also: TimeZone::from_file reads its File argument to the end without a limiting adapter; Source::new hashes the bytes of the unmodified TZ value.")
 also("C20", "Also: every string-serialized type requests deserialize_str; no ts_*_option visit_some swallows the inner error.")
+also("C04", "Also (value map): checked / overflowing offset shifts of NaiveDateTime, from_utc_datetime / from_local_datetime of a FixedOffset and naive_local / overflowing_naive_local / timestamp / naive_utc of DateTime "
+            "folded on both sides of midnight, a leap second, year ends and both range ends for offsets up to +-(24 h - 1 s) equal UTC + offset with the fraction kept; the checked forms refuse exactly outside MIN..=MAX.", VM)
+also("C20", "Also (value map): visit_i64 / visit_u64 of all eight ts_* visitors on all unit and range boundaries build exactly value * unit after the epoch or refuse.", VM)
